@@ -5,7 +5,7 @@
    equal to today's model in SpecProofs.v) prescribes, while today's model gives exactly that
    answer.  The witnesses are the shapes the deterministic corpus of tools/props/c09.py contains. *)
 From Coq Require Import List String Ascii Bool ZArith.
-From GZ Require Import C09.Model C09.Spec.
+From GZ Require Import C09.Model C09.Spec C09.Target.
 Import ListNotations.
 Open Scope string_scope.
 
@@ -361,4 +361,64 @@ Example other_spelling_same :
   = RHandler 0%Z [("id", ":uid")] /\
   serve_c11 [mkReg "GET" "/users/:id" 0%Z; mkReg "GET" "/users/me" 1%Z] "GET" "/users/me"
   = RHandler 1%Z [].
+Proof. vm_compute. split; reflexivity. Qed.
+
+(* ---------------------------------------------------------------------------------- C09-12
+   ServeHTTP routes on path.Clean(URL.RawPath) whenever net/url kept a RawPath, and url.PathUnescape()s the
+   bound variables afterwards.  RawPath is kept for EVERY spelling that differs from the default encoding
+   (an unreserved character sent as %XX, lower-case hex digits, %2e dot segments), not only for %2F: literal
+   route segments are then compared with the still-escaped text and path.Clean runs on the escaped text. *)
+Definition routed_rawpath (pr : string * string) : string :=
+  if snd pr =? "" then fst pr else snd pr.
+
+Definition unescape_vars (resp : response) : response :=
+  match resp with
+  | RHandler h ps => RHandler h (map (fun kv => (fst kv, match unescape (snd kv) with Some v => v | None => snd kv end)) ps)
+  | x => x
+  end.
+
+Definition serve_c12 (regs : list reg) (m t : string) : option response :=
+  option_map (fun pr => if snd pr =? "" then serve (router_of false false regs) m (fst pr)
+                        else unescape_vars (serve (router_of false false regs) m (routed_rawpath pr)))
+             (parse_target t).
+
+(* the shape of these refutations: the target is well-formed, the specification applied to the DECODED path and
+   today's model give [good]; the variant gives something else *)
+Definition refutes_target (regs : list reg) (m t : string) (good : response) : Prop :=
+  one_var_name_per_position (table_of regs) = true /\
+  option_map (fun pr => spec_serve (table_of regs) false false m (fst pr)) (parse_target t) = Some good /\
+  serve_target (router_of false false regs) m t = Some good /\
+  serve_c12 regs m t <> Some good.
+
+Definition c12_regs : list reg :=
+  [mkReg "GET" "/files/readme" 0%Z; mkReg "GET" "/files/:name" 1%Z; mkReg "GET" "/a/:x/b" 2%Z; mkReg "GET" "/b" 3%Z;
+   mkReg "POST" "/docs/café" 4%Z].
+
+(* an unreserved character escaped: the literal route loses against its variable sibling *)
+Theorem rawpath_routing_literal_refuted :
+  exists m t good, refutes_target c12_regs m t good /\
+    serve_c12 c12_regs m t = Some (RHandler 1%Z [("name", "readme")]).
+Proof.
+  exists "GET", "/files/%72eadme", (RHandler 0%Z []). vm_compute. repeat split; try reflexivity; discriminate.
+Qed.
+
+(* an encoded dot segment: Clean runs on the escaped text, ".." is bound to a variable *)
+Theorem rawpath_routing_dot_segment_refuted :
+  exists m t good, refutes_target c12_regs m t good /\
+    serve_c12 c12_regs m t = Some (RHandler 2%Z [("x", "..")]).
+Proof.
+  exists "GET", "/a/%2e%2e/b", (RHandler 3%Z []). vm_compute. repeat split; try reflexivity; discriminate.
+Qed.
+
+(* lower-case hex digits: 404 instead of the 405 the table prescribes *)
+Theorem rawpath_routing_lowercase_hex_refuted :
+  exists m t good, refutes_target c12_regs m t good /\ serve_c12 c12_regs m t = Some RNotFound.
+Proof.
+  exists "GET", "/docs/caf%c3%a9", (RNotAllowed ["POST"]). vm_compute. repeat split; try reflexivity; discriminate.
+Qed.
+
+(* the default encoding (no RawPath) is answered as today, which is why the variant passes the existing tests *)
+Example rawpath_routing_default_encoding_same :
+  serve_c12 c12_regs "POST" "/docs/caf%C3%A9" = Some (RHandler 4%Z []) /\
+  serve_c12 c12_regs "GET" "/files/readme?x=%72" = Some (RHandler 0%Z []).
 Proof. vm_compute. split; reflexivity. Qed.
